@@ -166,7 +166,7 @@ def plan(tier, seed):
                 continue
             topo = F.concrete(n, routers, v, seed, F.shape_label(n, routers, v))
             d = 1 if (quick or sum(v) > n or n == 4) else 2
-            for cache in ("cold", "rwarm", "warm"):
+            for cache in ("cold", "rwarm", "warm") if n <= 3 else ("cold", "rwarm"):
                 for know in ("K", "U"):
                     for src in range(sum(v)):
                         items.append(("pair", topo, cache, know, "now", d, src))
